@@ -383,6 +383,12 @@ class Exec:
                         self.consts[key] = rets[0][1]
                 if key in self.consts:
                     return self.consts[key]
+        vm = re.match(r"^(?:[\w]+(?:::<.*?>)?::)*(\w+)$", c)
+        if vm and vm.group(1) in VARIANTS and re.search(r"::", c) and vm.group(1) in ("None",):
+            # a unit variant written as a constant, e.g. `const Option::<Infallible>::None`
+            v = fresh(vm.group(1))
+            p.pc.append(disc(v) == VARIANTS[vm.group(1)])
+            return v
         # function items, ZeroSized closures, promoted constants ...
         key = ("c", c)
         if key not in self.consts:
@@ -625,6 +631,17 @@ class Exec:
             res = fresh("is_none")
             p.pc.append(asint(res) == z3.If(disc(argv[0]) == 1, 0, 1))
             return res
+        if re.search(r"Option::<.*>::take$|^std::mem::(replace|take)::<", fn) and getattr(self, "cur_fn", None) is not None:
+            tgt = self.ref_target(p, self.cur_fn, self.raw_args[0])
+            if tgt is not None:
+                old = self.place(p, tgt)
+                if re.search(r"mem::replace::<", fn):
+                    new = argv[1]
+                else:
+                    new = fresh("none")
+                    p.pc.append(disc(new) == 0)
+                self.assign(p, tgt, new)
+                return old
         if re.search(r"Option::<.*>::unwrap_or$", fn):
             res = fresh("unwrap_or")
             p.pc.append(res == z3.If(disc(argv[0]) == 1, proj(argv[0], "Some.0"), argv[1]))
@@ -654,6 +671,7 @@ class Exec:
     def call(self, p, fn_name, dst, fn, args, ret, cur_fn):
         argv = [self.operand(p, a) for a in args]
         self.raw_args = args
+        self.cur_fn = cur_fn
         dst_type = cur_fn.types.get(dst, "")
         if self.handler:
             r = self.handler(self, p, fn, argv, dst, dst_type, cur_fn)
@@ -670,6 +688,13 @@ class Exec:
             if re.search(pat, fn):
                 key = self.pure[pat] if isinstance(self.pure, dict) else (re.sub(r"<.*", "", fn) if not fn.startswith("<") else fn)
                 return pure_fn(key, len(argv))(*argv) if argv else pure_fn(key, 0)()
+        tm = re.match(r"^<(?:&mut |&)?([A-Za-z_]\w*)(?:<.*>)? as [\w:]+(?:<.*>)?>::(\w+)$", fn) if getattr(self, "auto_inline_local", False) else None
+        if tm:
+            # `<LocalType<..> as Trait>::method`: a trait method implemented in the crate under analysis
+            cands = [f for n, f in self.mir.functions.items() if n.endswith("::" + tm.group(2)) and len(f.args) == len(argv) and f.args
+                     and re.search(r"\b%s\b" % re.escape(tm.group(1)), f.types.get(f.args[0], ""))]
+            if len(cands) == 1:
+                return ("inline", cands[0], argv)
         if getattr(self, "auto_inline_local", False) and not re.search(r"^<|^std::|^core::|^alloc::", fn):
             # a function of the crate under analysis that no model covers: execute it from its own MIR
             last = re.sub(r"::<.*?>$", "", fn).split("::")[-1]
@@ -853,6 +878,17 @@ class Exec:
                         cond, val = item[0], item[1]
                         if self.feasible(p, cond):
                             live.append((cond, val, list(item[2]) if len(item) > 2 and item[2] else [], item[3] if len(item) > 3 and item[3] else {}))
+                    # a fork whose value is ("__done__", how, value) ends its path there (e.g. a closure that exits the process)
+                    ended = [f for f in live if isinstance(f[1], tuple) and f[1] and f[1][0] == "__done__"]
+                    live = [f for f in live if not (isinstance(f[1], tuple) and f[1] and f[1][0] == "__done__")]
+                    for cond, val, evs, gh in ended:
+                        q = p.clone()
+                        q.pc.append(cond)
+                        q.trace = q.trace + evs
+                        q.ghost.update(gh)
+                        self.stats["paths"] += 1
+                        if on_finish:
+                            on_finish(q, val[1], val[2])
                     if not live:
                         raise Done("dead")
                     if ret is None:
